@@ -341,6 +341,7 @@ fn driver(p: &'static dyn Prop, tier: Tier) -> i32 {
             }
         })
         .collect();
+    let mut died_at: HashSet<(usize, Vec<u32>)> = HashSet::new();
     let stall = Duration::from_secs(p.stall_secs());
     let mut done = vec![false; nshards];
     while done.iter().any(|d| !d) {
@@ -407,6 +408,11 @@ fn driver(p: &'static dyn Prop, tier: Tier) -> i32 {
                             .unwrap();
                         writeln!(f, "{}", serde_json::to_string(&(case, &choices)).unwrap()).unwrap();
                         w.restarts += 1;
+                        // the same execution killed the worker twice (a case that is not under the explorer's
+                        // skip list): give up on that case and continue with the next one
+                        let repeated = died_at.contains(&(case, choices.clone()));
+                        died_at.insert((case, choices.clone()));
+                        let case = if repeated { case + 1 } else { case };
                         if w.restarts > 2000 {
                             machinery.push(format!("shard {}: more than 2000 worker deaths", w.shard));
                             done[w.shard] = true;
